@@ -9,7 +9,8 @@
    from the GENERATED translations of can_forward_htlc_should_intercept, can_forward_htlc_to_outgoing_channel,
    forward_needs_intercept_to_{known,unknown}_chan, htlc_satisfies_config, create_htlc_intercepted_event and
    forward_intercepted_htlc (Generated/Forward.lean, regenerated on every run).
-   Scope: the one-HTLC machine, lifted to N HTLCs on one pair of links (Model/ForwardMulti.lean); on-chain claiming itself is C07; trampoline and blinded forwards are not modelled. -/
+   Scope: the one-HTLC machine, lifted to N HTLCs on one pair of links (Model/ForwardMulti.lean); on-chain claiming itself is C07 (the downstream monitor's preimage LEARNING per HTLC source is here: Generated/ChainClaim.lean);
+   blinded forwards: the amounts of check_blinded_forward (Generated/Blinded.lean); trampoline forwards are not modelled. -/
 import LdkModel.Proofs.Forward
 import LdkModel.Proofs.ForwardHop
 import LdkModel.Proofs.ForwardClose
